@@ -297,6 +297,9 @@ func (run *checkRun) generate(en *Engine, p *PropSpec) []*Obligation {
 		if fl == "ct" {
 			out = append(out, en.CTCheck(run)...)
 		}
+		if fl == "globals" {
+			out = append(out, en.GlobalsCheck(run)...)
+		}
 	}
 	if p.Ground {
 		_, grs := en.GroundFacts()
